@@ -16,8 +16,8 @@ def run(ctx):
     ctx.design("MC_Crash", "MC_Crash.cfg", label="crash-safe", workers=2)
     ctx.negative_control("MC_Crash", ctx.cfg_variant("MC_Crash.cfg", dict(HeaderFirst="TRUE")), label="neg:HeaderFirst", workers=2)
     tr = os.path.join(ctx.work, "crash.ndjson")
-    ctx.record("record-crash", ["-seed", str(ctx.seed), "-values", "0,1,5,999,1000,1001,2000,2500,3001" if thorough else "0,5,1000,1001,2500",
-                                "-updog", updog, "-kills", "24" if thorough else "8"], tr, timeout=3000)
+    ctx.record("record-crash", ["-seed", str(ctx.seed), "-values", "0,1,2,5,999,1000,1001,1999,2000,2001,2500,3001,4500" if thorough else "0,5,1000,1001,2500",
+                                "-updog", updog, "-kills", "80" if thorough else "8"], tr, timeout=3000)
     ctx.check_trace("Trace_Crash", "Trace_Crash.cfg", tr, "trace-crash", must_have=("Snap", "CrashOpen", "Kill"), run_marker="Begin")
 
 
